@@ -61,7 +61,7 @@ func genC04(r *simrt.RNG) *Case {
 		}
 	}
 	if kind == "fasta" && r.Intn(2) == 0 {
-		l.Rewrap = r.Pick(1, 2, 7, 60, r.Range(1, 300), 4095, 4096, 4097, 8192, 20000, r.Range(1, 20000))
+		l.Rewrap = r.Pick(1, 2, 7, 60, r.Range(1, 300), 4093, 4094, 4095, 4096, 4097, 8190, 8191, 8192, 8193, 12288, 20000, r.Range(1, 20000))
 	}
 	pl.Layout = l
 	pl.Delivery = simio.PickDelivery(r)
@@ -136,6 +136,9 @@ func applyLayout(kind string, text []byte, l Layout, recLines []int) []byte {
 	blank := func() {
 		if l.BlankRate > 0 && r.Intn(l.BlankRate) == 0 {
 			for n := r.Range(1, 2); n > 0; n-- {
+				if l.TrailRate > 0 && r.Intn(l.TrailRate) == 0 {
+					buf.WriteString([]string{" ", "\t", " \t"}[r.Intn(3)]) // an inserted blank line with trailing blanks
+				}
 				buf.Write(term)
 			}
 		}
